@@ -33,6 +33,7 @@ def plan(tier, seed):
     specs += [{'kind': 'specgrid', 'part': i, 'parts': 4} for i in range(4)]
     specs += [{'kind': 'nonlocal', 'part': i, 'parts': 4} for i in range(4)]
     specs += [{'kind': 'history', 'part': i, 'parts': 8, 'tier': tier} for i in range(8)]
+    specs += [{'kind': 'scale', 'part': i, 'parts': 2} for i in range(2)]
     specs += [{'kind': 'examples', 'seed': seed * 100 + j} for j in range(4 if tier == 'quick' else 16)]
     return specs
 
@@ -112,6 +113,14 @@ def run_shard(spec):
         for k, (tag, prog) in enumerate(idioms.history_programs()):
             if k % spec['parts'] == spec['part']:
                 argsets = idioms.HISTORY_ARGS if (spec['tier'] != 'quick' or tag.startswith('history-nested')) else [idioms.HISTORY_ARGS[(k // 8) % 4], idioms.HISTORY_ARGS[(k // 8 + 1 + k % 3) % 4]]
+                for args in argsets:
+                    check_program(res, prog, args, rng, tag)
+        return res
+    if spec['kind'] == 'scale':
+        # 9-34 try blocks in a row (two-digit handler numbers), in one function and spread over many
+        rng = random.Random(0)
+        for k, tag, prog, argsets in common.scale_items(('tries',)):
+            if k % spec['parts'] == spec['part']:
                 for args in argsets:
                     check_program(res, prog, args, rng, tag)
         return res
